@@ -129,7 +129,11 @@ where
     // batch forms (the coder reverses the order itself); alternate with the per-symbol loop
     if !syms.is_empty() && (syms.len() + syms[0].1) % 3 == 0 {
         run.count("batch_reverse_encodes", 1);
-        let r = if (syms.len() + syms[0].0) % 2 == 0 {
+        let same_model = syms.iter().all(|&(mi, _)| mi == syms[0].0);
+        let r = if same_model {
+            run.count("batch_iid_reverse_encodes", 1);
+            c.encode_iid_symbols_reverse(syms.iter().map(|&(_, s)| s), &zoo[syms[0].0]).map_err(|e| format!("{e:?}"))
+        } else if (syms.len() + syms[0].0) % 2 == 0 {
             c.encode_symbols_reverse(syms.iter().map(|&(mi, s)| (s, &zoo[mi]))).map_err(|e| format!("{e:?}"))
         } else {
             c.try_encode_symbols_reverse(syms.iter().map(|&(mi, s)| Ok::<_, ()>((s, &zoo[mi])))).map_err(|e| format!("{e:?}"))
